@@ -741,20 +741,40 @@ def _l2d(env_name):
     return L2DPolicy(env_name=env_name, embed_dim=32, num_encoder_layers=1)
 
 
+def _l2dattn(env_name):
+    from rl4co.models.zoo.l2d.policy import L2DAttnPolicy
+    return L2DAttnPolicy(env_name=env_name, embed_dim=32, num_encoder_layers=1, num_heads=2)
+
+
 def _nargnn(env_name):
     from rl4co.models.zoo.nargnn.policy import NARGNNPolicy
     return NARGNNPolicy(env_name=env_name, embed_dim=16, num_layers_heatmap_generator=2, num_layers_graph_encoder=2)
 
 
 POLICY_CTORS = {"AttentionModelPolicy": _am, "HeterogeneousAttentionModelPolicy": _ham, "SymNCOPolicy": _symnco,
-                "MatNetPolicy": _matnet, "PolyNetPolicy": _polynet, "L2DPolicy": _l2d, "NARGNNPolicy": _nargnn}
+                "MatNetPolicy": _matnet, "PolyNetPolicy": _polynet, "L2DPolicy": _l2d, "L2DAttnPolicy": _l2dattn,
+                "NARGNNPolicy": _nargnn}
+# networks that are, by design, not a function of (instance, state) alone: the per-row-function check is restricted / skipped
+REPLICA_DEPENDENT = {"PolyNetPolicy"}      # the strategy vector z depends on the replica index: only replica 0 is comparable with a flat decode
+RNG_IN_FORWARD = {"MatNetPolicy"}          # random one-hot column embedding drawn per forward pass, shape depends on the batch: own finding
+
+
+def dynamic_embedding_envs():
+    """Names in rl4co.models.nn.env_embeddings.dynamic's registry whose dynamic embedding is not the static one."""
+    import inspect
+    import re
+    from rl4co.models.nn.env_embeddings import dynamic
+    text = inspect.getsource(dynamic.env_dynamic_embedding)
+    return sorted(n for n, c in re.findall(r'"(\w+)":\s*(\w+)', text) if c != "StaticEmbedding")
 REAL_POLICIES = [
     ("AttentionModelPolicy", "tsp", dict(num_loc=7)), ("AttentionModelPolicy", "cvrp", dict(num_loc=7)),
     ("AttentionModelPolicy", "op", dict(num_loc=7)), ("AttentionModelPolicy", "pctsp", dict(num_loc=7)),
     ("AttentionModelPolicy", "sdvrp", dict(num_loc=6)), ("AttentionModelPolicy", "pdp", dict(num_loc=6)),
     ("HeterogeneousAttentionModelPolicy", "pdp", dict(num_loc=6)), ("SymNCOPolicy", "tsp", dict(num_loc=7)),
     ("MatNetPolicy", "atsp", dict(num_loc=6)), ("PolyNetPolicy", "tsp", dict(num_loc=7)),
-    ("L2DPolicy", "jssp", dict(num_jobs=3, num_machines=3)), ("NARGNNPolicy", "tsp", dict(num_loc=7)),
+    ("L2DPolicy", "jssp", dict(num_jobs=3, num_machines=3)), ("L2DPolicy", "fjsp", dict(num_jobs=3, num_machines=3)),
+    ("L2DAttnPolicy", "fjsp", dict(num_jobs=3, num_machines=3)),
+    ("NARGNNPolicy", "tsp", dict(num_loc=7)),
 ]
 
 
@@ -766,6 +786,45 @@ def build_real(label, envname, gp, wseed):
     pol = POLICY_CTORS[label](envname)
     pol.eval()
     return env, pol
+
+
+def per_row_function_check(pol, env, td0, acts, lls, B, S, ms, tseed, replica0_only):
+    """None, or the first (row, step) at which the S-fold pass's per-step log-prob differs (> 1e-4) from what the flat batch
+    batchify(td, S) / the instance alone assign to the same forced actions."""
+    import torch
+    from rl4co.utils.ops import batchify
+    TOL = 1e-4
+    R = acts.shape[0]
+    start = 1 if ms else 0
+    rows = list(range(B if replica0_only else R))
+
+    def first_diff(ll_other, r_other, r, against):
+        T = min(ll_other.shape[1], lls.shape[1])
+        d = (ll_other[r_other, start:T].double() - lls[r, start:T].double()).abs()
+        if d.numel() and float(d.max()) > TOL:
+            t = int((d > TOL).nonzero()[0]) + start
+            return {"row": r, "step": t, "observed": float(lls[r, t]), "expected": float(ll_other[r_other, t]), "against": against,
+                    "observed_ll_steps": [float(x) for x in lls[r]], "expected_ll_steps": [float(x) for x in ll_other[r_other]]}
+        return None
+
+    torch.manual_seed(tseed)
+    with torch.no_grad():
+        outF = pol(batchify(td0, S).clone(), env, phase="test", actions=acts, return_sum_log_likelihood=False)
+    for r in rows:
+        bad = first_diff(outF["log_likelihood"], r, r, "the flat batch batchify(td, %d) is decoded" % S)
+        if bad is not None:
+            return bad
+    # the instance alone: prefer rows whose replica index differs from their instance index
+    cand = [r for r in rows if r // S != r % B] + rows
+    for r in list(dict.fromkeys(cand))[:2]:
+        b = r % B
+        torch.manual_seed(tseed)
+        with torch.no_grad():
+            outA = pol(td0[b:b + 1].clone(), env, phase="test", actions=acts[r:r + 1], return_sum_log_likelihood=False)
+        bad = first_diff(outA["log_likelihood"], 0, r, "instance %d is decoded alone" % b)
+        if bad is not None:
+            return bad
+    return None
 
 # ----------------------------------------------------------------------------------------------- (b) real policies
 def real_policies(ctx, rng, thorough, fails, t_start):
@@ -806,6 +865,8 @@ def real_policies(ctx, rng, thorough, fails, t_start):
 
     TOL = 1e-4
     covered, skipped = [], []
+    dyn_envs = dynamic_embedding_envs()
+    dyn_covered = set()
     D.DecodingStrategy.step = wrapped
     try:
         for label, envname, gp in specs:
@@ -893,6 +954,23 @@ def real_policies(ctx, rng, thorough, fails, t_start):
                         ctx.sample({"stream": "real-policy", "policy": label, "env": envname, "decode_type": dt,
                                     "actions": [[int(a) for a in row] for row in acts], "returned_ll": [round(float(x), 5) for x in out_s["log_likelihood"]],
                                     "sum_of_recorded_step_logprobs": [round(float(x), 5) for x in lp.sum(1)]})
+                    # THE MODEL'S KEY HYPOTHESIS on the implementation: the decoder is a per-row function of (instance, state).
+                    # Row r of an S-fold pass (instance r mod B) must get the per-step log-probs that the flat batch batchify(td, S)
+                    # and the instance decoded alone give to the same forced actions (multistart: from step 1 on, the forced move
+                    # is the separate known finding).
+                    if S >= 2 and B >= 2 and label not in RNG_IN_FORWARD:
+                        bad = per_row_function_check(pol, env, td0, acts, lls, B, S, ms, tseed, label in REPLICA_DEPENDENT)
+                        ctx.count("real_per_row_function_checks")
+                        if envname in dyn_envs:
+                            ctx.count("real_per_row_function_checks_dynamic_embedding_env")
+                            dyn_covered.add(envname)
+                        if bad is not None:
+                            fails.append(("real-policy/%s/%s: per-step log-probs of a multistart/multisample row are not those of its own instance" % (label, envname),
+                                          fail(label, envname, gp, B, dt,
+                                               "row %d (instance %d, replica %d of %d) step %d: log-prob %.6f in the %d-fold pass, %.6f when %s with the same forced "
+                                               "actions" % (bad["row"], bad["row"] % B, bad["row"] // B, S, bad["step"], bad["observed"], S, bad["expected"], bad["against"]),
+                                               dict(bad, instance=td_to_obj(data), num_starts=S, check="per-row-function",
+                                                    actions=[[int(a) for a in row] for row in acts]))))
                     # evaluate round trip on the same batch.  The network may draw random numbers in its forward pass (MatNet's
                     # random one-hot column embedding): pass A restores the RNG state of the rollout, so that the network is the
                     # same function in both passes (the hypothesis of the model); pass B does not.
@@ -947,7 +1025,14 @@ def real_policies(ctx, rng, thorough, fails, t_start):
         D.DecodingStrategy.step = orig_step
     ctx.units["real policies on the common loop (spec-on-impl, wrapper around DecodingStrategy.step)"] = {
         "policies": covered, "skipped": skipped, "passes": ctx.dist.get("real_policy_passes", 0),
-        "round_trips": ctx.dist.get("real_roundtrips", 0)}
+        "round_trips": ctx.dist.get("real_roundtrips", 0),
+        "per_row_function_checks": ctx.dist.get("real_per_row_function_checks", 0),
+        "dynamic_embedding_envs_in_registry": dyn_envs, "dynamic_embedding_envs_checked": sorted(dyn_covered),
+        "per_row_function_check_restricted": {"PolyNetPolicy": "replica 0 only (strategy vector depends on the replica index by design)",
+                                              "MatNetPolicy": "skipped (random numbers drawn in the forward pass: its own finding)"}}
+    missing = [e for e in dyn_envs if e not in dyn_covered]
+    if missing:
+        ctx.notes.append("dynamic-embedding envs of the registry for which no S-fold pass could be checked here: %s" % missing)
     if skipped:
         ctx.notes.append("real-policy stream skipped: " + "; ".join(skipped[:12]))
 
@@ -974,6 +1059,18 @@ def replay(obj):
         print("policy %s on %s, decode_type %s %s" % (obj["policy"], obj["env"], obj["decode_type"], kw))
         print("rollout   : actions", out["actions"].tolist())
         print("rollout   : log_likelihood per row", [round(float(x), 6) for x in out["log_likelihood"].sum(-1)], "entropy", [round(float(x), 5) for x in out["entropy"]])
+        if obj.get("check") == "per-row-function":
+            bad = per_row_function_check(pol, env, td0, out["actions"], out["log_likelihood"].double(), B, S, ms, obj["torch_seed"],
+                                         obj["policy"] in REPLICA_DEPENDENT)
+            print("recorded  : row %s step %s observed %s expected %s (%s)" % (obj.get("row"), obj.get("step"), obj.get("observed"), obj.get("expected"), obj.get("against")))
+            if bad is None:
+                print("observed now: every row of the %d-fold pass gets the per-step log-probs of its own instance (flat batch and alone): property holds" % S)
+            else:
+                print("observed now: row %d step %d: %.6f in the %d-fold pass, %.6f when %s" % (bad["row"], bad["step"], bad["observed"], S, bad["expected"], bad["against"]))
+                print("   S-fold pass per-step log-probs :", [round(x, 5) for x in bad["observed_ll_steps"]])
+                print("   own instance per-step log-probs:", [round(x, 5) for x in bad["expected_ll_steps"]])
+            print("expected (property): equal to 1e-4 (from step 1 on for multistart)")
+            return 0
         if not kw.get("select_best"):
             ekw = dict(num_samples=S) if (S and not ms) else {}
             tdE = batchify(td0, S) if (S and ms) else td0
